@@ -98,6 +98,7 @@ def parseField (a : Attempt) (fld : String) : Option Attempt :=
   match split3 fld with
   | ["-"] => some a
   | ["hj"] => some { a with hijack := true }
+  | ["fl"] => some { a with flush := true }
   | ["r", "all"] => some { a with read := none }
   | ["r", n] => n.toNat?.map fun n => { a with read := some n }
   | ["hs", k, v] => some { a with hdrOps := a.hdrOps ++ [.set k v] }
